@@ -737,4 +737,13 @@ theorem dot_reordered (names : List Name) (phi : List Rat) (cols : List String) 
         ih xs hc.2 (fun c' h' => hsub c' (List.mem_cons_of_mem _ h'))]
       simp [phiAt, List.sum_cons]
 
+theorem arrowTip_get (b d : List Cell) (p sc : Rat) (j : Nat) (x y : Rat)
+    (hb : b[j]? = some (.num x)) (hd : d[j]? = some (.num y)) :
+    (arrowTip b d p sc)[j]? = some (some (x + (y * p) * sc)) := by
+  simp [arrowTip, List.getElem?_zipWith, hb, hd, cellVal]
+
+/-- with the columns labelled `x, y, z` in that order the selection keeps a 3-cell row -/
+theorem selRow_xyz (a b c : Cell) : selRow ["x", "y", "z"] [a, b, c] = [a, b, c] := by
+  simp [selRow, List.lookup]
+
 end PV.Geo
